@@ -132,15 +132,71 @@ def type_witness(types: dict, cpp: str):
     return problems, checked
 
 
+POLY_HDR = """from Reduino import target
+target("COM3")
+from Reduino.Communication import SerialMonitor
+mon = SerialMonitor(9600)
+"""
+
+
+def poly_program(rng):
+    """Helpers called at several sites with different argument types (int / float / str variables, never float literals:
+    a double literal passed to an overloaded helper is ambiguous in C++ - that is C06's business)."""
+    L = POLY_HDR.splitlines()
+    L += ["iv = %d" % rng.randint(1, 9), "fv = %s" % rng.choice(["2.5", "0.75", "10.25"]), "sv = \"%s\"" % rng.choice(["ab", "x", "hello"]),
+          "iw = %d" % rng.randint(2, 7), "fw2 = %s" % rng.choice(["1.5", "4.25"])]
+    bodies = [
+        ("scale", ["v"], ["    return v * 2"], ["num"]),
+        ("mix", ["a", "b"], ["    t = a + b", "    return t"], ["num", "num"]),
+        ("pick", ["a", "b"], ["    if a > b:", "        return a", "    return b"], ["num", "num"]),
+        ("half", ["v"], ["    h = v / 2.0", "    return h"], ["num"]),
+        ("twice", ["s"], ["    return s + s"], ["any"]),
+        ("ident", ["q"], ["    r = q", "    return r"], ["any"]),
+        ("accum", ["v", "n"], ["    total = v", "    for k in range(n):", "        total = total + v", "    return total"], ["num", "int"]),
+    ]
+    chosen = rng.sample(bodies, rng.randint(1, 3))
+    for name, params, body, kinds in chosen:
+        L.append(f"def {name}({', '.join(params)}):")
+        L += body
+        L.append("")
+    order = []
+    for name, params, body, kinds in chosen:
+        variants = []
+        pools = {"num": ["iv", "fv", "iw", "fw2", "3"], "int": ["iw", "2", "3"], "any": ["iv", "fv", "sv"]}
+        if name == "twice":
+            pools["any"] = ["iv", "fv", "sv"]
+        for _ in range(rng.randint(2, 4)):
+            args = [rng.choice(pools[k]) for k in kinds]
+            variants.append(args)
+        for args in variants:
+            order.append(f"r{len(order)} = {name}({', '.join(args)})")
+            order.append(f"mon.write(r{len(order) - 1 if False else len(order) // 2})") if False else None
+    # emit calls + prints (result names are unique)
+    k = 0
+    for name, params, body, kinds in chosen:
+        pools = {"num": ["iv", "fv", "iw", "fw2", "3"], "int": ["iw", "2", "3"], "any": ["iv", "fv", "sv"]}
+        for _ in range(rng.randint(2, 4)):
+            args = [rng.choice(pools[kk]) for kk in kinds]
+            L.append(f"res{k} = {name}({', '.join(args)})")
+            L.append(f"mon.write(res{k})")
+            k += 1
+    return "\n".join(L) + "\n"
+
+
 def run_case(case):
     idx, profile, sd, passes, hazards = case
-    p = prog.generate((PROP, sd, profile, idx, hazards), profile, hazards=hazards)
+    if profile == "poly":
+        from ..common import rng_for
+        p = {"source": poly_program(rng_for(PROP, sd, "poly", idx)), "features": ["poly-call"], "hazards": []}
+    else:
+        p = prog.generate((PROP, sd, profile, idx, hazards), profile, hazards=hazards)
     r = engine.differential(p["source"], passes=passes, hazards=True, trace_types=True)
     out = {k: r.get(k) for k in ("outcome", "exc", "diag", "divergence", "why", "fingerprint", "n_model_events", "cpp")}
     out["hz"] = engine.hazards_before(r)
     out["source"] = p["source"]
     out["features"] = p["features"]
     out["gen_hazards"] = p["hazards"]
+    out["out_of_range"] = engine.outside_domain(r)
     if r.get("cpp") and r.get("types"):
         probs, checked = type_witness(r["types"], r["cpp"])
         out["type_problems"] = probs[:6]
@@ -155,6 +211,7 @@ def main() -> int:
     sd = seed()
     n_clean = 140 if t == "quick" else 3000
     cases = [(i, "clean", sd, (1, 2)[i % 2], ()) for i in range(n_clean)]
+    cases += [(i, "poly", sd, 1, ()) for i in range(40 if t == "quick" else 600)]
     if t == "thorough":
         for hz in GENHZ_TO_FINDING:
             cases += [(i, "hazard", sd, 2, (hz,)) for i in range(200)]
@@ -162,7 +219,11 @@ def main() -> int:
         if st != "ok":
             rep.inconclusive_because(f"case {case[:3]} failed: {res[-300:]}")
             continue
-        clean = case[1] == "clean"
+        clean = case[1] in ("clean", "poly")
+        if res.get("out_of_range"):
+            rep.case(None, False)
+            rep.count("discarded_outside_domain")
+            continue
         o = res["outcome"]
         rep.count(("clean:" if clean else "hazard:") + o)
         rep.case(res.get("fingerprint"), o == "equal" and res.get("type_checked", 0) > 0)
